@@ -673,6 +673,8 @@ class Norm:
                     return P_INT
                 if b == "isinstance":
                     return P_BOOL
+            if ref == "ext:random.choice" and t[2]:
+                return self.typer.elem_type(self.type_of(t[2][0], scope))
             if ref.startswith("ext:"):
                 return ("X", ref[4:] + "()")
             return None
